@@ -440,3 +440,70 @@ Qed.
 
 Lemma ex_cubic_rec : (1 <= m_nd (mkM 29%Z 58 1 3) <= M2D_NGRID - 1)%Z.
 Proof. simpl. unfold M2D_NGRID. lia. Qed.
+
+(* ================================================================== *)
+(* 4. more about the cubic interpolation                                *)
+
+(* numpy's polyval is Horner's rule, for any number of coefficients *)
+Fixpoint horner (c : list R) (x : R) : R :=
+  match c with [] => 0 | a :: r => a + x * horner r x end.
+
+Lemma horner_snoc2 x l a b : horner (l ++ [a; b]) x = horner (l ++ [a + b * x]) x.
+Proof.
+  induction l as [|c l IH]; simpl; [ring|]. rewrite IH. reflexivity.
+Qed.
+
+Lemma fold_horner x r : forall acc,
+  fold_left (fun c0 ci => ci + c0 * x) r acc = horner (rev r ++ [acc]) x.
+Proof.
+  induction r as [|a r IH]; intros acc; simpl; [ring|].
+  rewrite IH, <- app_assoc. simpl. rewrite horner_snoc2. reflexivity.
+Qed.
+
+Theorem polyval_horner x c : polyval RR x c = horner c x.
+Proof.
+  unfold polyval. destruct (rev c) as [|cl r] eqn:E.
+  - apply (f_equal (@rev R)) in E. rewrite rev_involutive in E. subst c. reflexivity.
+  - apply (f_equal (@rev R)) in E. rewrite rev_involutive in E. simpl in E. subst c.
+    cbn [nadd nmul n0 RR]. rewrite fold_horner.
+    replace (cl + x * 0) with cl by ring. reflexivity.
+Qed.
+
+(* the coefficients of a month: f(0) = 0, f(1) = y, f'(0) = d0*n, f'(1) = d1*n
+   (written on the coefficients: f' = c1 + 2 c2 x + 3 c3 x^2) *)
+Theorem cubic_coefs r :
+  exists c1 c2 c3, m2d_coefs RR r = [0; c1; c2; c3] /\
+    c1 + c2 + c3 = m_y r /\ c1 = m_a r /\ c1 + 2 * c2 + 3 * c3 = m_b r.
+Proof.
+  unfold m2d_coefs, m2d_row, M2D_MI. cbn [map nth nadd nmul nofZ n0 RR].
+  do 3 eexists. split; [reflexivity|]. repeat split; ring.
+Qed.
+
+(* after the adjustment loop the slope (per day) at the end of a month equals
+   the slope at the start of the next one *)
+Fixpoint slopes_match (l : list (mrec (T:=R))) : Prop :=
+  match l with
+  | r1 :: ((r2 :: _) as t) =>
+      m_b r1 / IZR (m_nd r1) = m_a r2 / IZR (m_nd r2) /\ slopes_match t
+  | _ => True
+  end.
+
+Lemma smooth_head rest cur :
+  exists r t, m2d_smooth RR cur rest = r :: t /\ m_a r = m_a cur /\ m_nd r = m_nd cur.
+Proof.
+  destruct rest as [|nxt rest]; simpl; eexists; eexists; (split; [reflexivity|split; reflexivity]).
+Qed.
+
+Theorem smooth_slopes_match rest : forall cur,
+  Forall (fun r => m_nd r <> 0%Z) (cur :: rest) -> slopes_match (m2d_smooth RR cur rest).
+Proof.
+  induction rest as [|nxt rest IH]; intros cur H; [exact I|].
+  cbn [m2d_smooth]. inversion H as [|? ? Hc Hr]; subst. inversion Hr as [|? ? Hn Hr']; subst.
+  set (d1 := m2d_d1 RR cur nxt).
+  set (nxt' := mkM (m_nd nxt) (m_y nxt) (nmul RR d1 (nofZ RR (m_nd nxt))) (m_b nxt)).
+  destruct (smooth_head rest nxt') as (r & t & E & Ea & End).
+  specialize (IH nxt'). rewrite E in *. cbn [slopes_match]. split.
+  - cbn [m_b m_nd]. rewrite Ea, End. unfold nxt'. cbn [m_a m_nd nmul nofZ RR].
+    field. split; apply not_0_IZR; assumption.
+  - apply IH. constructor; [exact Hn|exact Hr'].
+Qed.
